@@ -92,3 +92,19 @@ fn add_with_limits<T: Clone + Eq + PartialEq + Hash>(
 
     old_items.insert(new_item);
 }
+
+#[cfg(reinterpretcat_vrp_verif)]
+impl TabuList {
+    /// Verification hook: renders tabu list content in comparable form.
+    pub(crate) fn verif_render(&self) -> String {
+        use crate::models::problem::{JobIdDimension, VehicleIdDimension};
+
+        let mut jobs = self.jobs.iter().map(|job| job.dimens().get_job_id().cloned().unwrap_or_default()).collect::<Vec<_>>();
+        jobs.sort();
+        let mut actors =
+            self.actors.iter().map(|actor| actor.vehicle.dimens.get_vehicle_id().cloned().unwrap_or_default()).collect::<Vec<_>>();
+        actors.sort();
+
+        format!("tabu:jobs={jobs:?},actors={actors:?}")
+    }
+}
